@@ -1,7 +1,7 @@
 """Property id -> check function."""
 import json
 
-from . import props_pool, props_router, props_plugins
+from . import props_pool, props_router, props_plugins, props_relay
 
 CHECKS = {
     'C01': props_pool.check,
@@ -12,6 +12,7 @@ CHECKS = {
     'C13': props_router.check_c13,
     'C06': props_router.check_c06,
     'C19': props_plugins.check_c19,
+    'C03': props_relay.check_c03,
 }
 
 
